@@ -3,6 +3,7 @@ package main
 import (
 	"fmt"
 	"go/token"
+	"go/types"
 	"sort"
 	"strings"
 
@@ -31,6 +32,7 @@ func checkC20(p *Program, r *Report) {
 		r.Undecided("C20.R1", "model", "vm", err.Error())
 		return
 	}
+	c20SiblingProductions(p, r)
 	ka := buildKindAnalysis(m)
 	va := buildEvalAnalysis(m)
 	r.Note("discriminating_helper_parameters", ka.describe())
@@ -454,4 +456,66 @@ func elemEnteredFromSomeTest(b *ssa.BasicBlock, same func(ssa.Value) bool) bool 
 		}
 	}
 	return false
+}
+
+// c20SiblingProductions (R4): the grammar spells each call form four to eight times (plain / go / defer, named / any callee
+// expression, with / without `...`). The productions agree: a node is marked VarArg exactly when its production contains the
+// `...` token, and Go exactly when it contains `go`. A sibling that forgets the mark makes the same call behave differently
+// depending on how the callee is written.
+func c20SiblingProductions(p *Program, r *Report) {
+	r.Explain("R4 sibling call productions agree: VarArg is set exactly when the production contains the `...` token, Go exactly when it contains `go`.")
+	g, err := BuildLALR(p)
+	if err != nil {
+		r.Undecided("C20.R4", "grammar", "parser", err.Error())
+		return
+	}
+	nm, err := BuildNodeModel(p, g)
+	if err != nil {
+		r.Undecided("C20.R4", "node model", "parser", err.Error())
+		return
+	}
+	pairs := []struct{ tok, field string }{{"VARARG", "VarArg"}, {"GO", "Go"}}
+	n := 0
+	cnt := map[string]int{}
+	for _, pr := range nm.Producers {
+		nt, ok := nm.Nodes[pr.Kind]
+		if !ok {
+			continue
+		}
+		st, ok := nt.Underlying().(*types.Struct)
+		if !ok {
+			continue
+		}
+		for _, pair := range pairs {
+			has := false
+			for i := 0; i < st.NumFields(); i++ {
+				if b, ok := st.Field(i).Type().(*types.Basic); ok && st.Field(i).Name() == pair.field && b.Kind() == types.Bool {
+					has = true
+				}
+			}
+			t := g.TokByName(pair.tok)
+			if !has || t == 0 {
+				continue
+			}
+			inRule := false
+			for _, sym := range g.RHS[pr.Rule] {
+				if sym == t {
+					inRule = true
+				}
+			}
+			n++
+			inst := fmt.Sprintf("%s.%s in rule %s", pr.Kind, pair.field, g.RuleString(pr.Rule))
+			cnt[inst]++
+			if cnt[inst] > 1 {
+				inst = fmt.Sprintf("%s #%d", inst, cnt[inst])
+			}
+			pos := "parser/parser.go.y"
+			if cc := g.Clauses[pr.Rule]; cc != nil {
+				pos = p.Pos(cc.Pos())
+			}
+			r.Check(inRule == pr.True[pair.field], "C20.R4", inst, pos, fmt.Sprintf("%s is set exactly when the production contains %s", pair.field, pair.tok),
+				fmt.Sprintf("the production contains %s: %v, but the node it builds has %s: %v — its sibling productions mark the node, so the same call means something else depending on how the callee (or the statement around it) is written", pair.tok, inRule, pair.field, pr.True[pair.field]))
+		}
+	}
+	r.Floor("C20.R4", n, 20)
 }
